@@ -29,6 +29,11 @@ def compare(ctx, rule, inst, code: Val, spec: Val, fi, key, strict_idiom=True):
     if same(code, spec) or (isinstance(code, Num) and isinstance(spec, Num) and code.struct_eq(spec)):
         return ctx.ok(rule, inst, '', fi.loc(), fi.qualname, key)
     hc, hs = heads(code), heads(spec)
+    from .common import tolerance_heads
+    tol = [h for h in tolerance_heads(code) if 'lib:' + h not in hs]
+    if tol:
+        return ctx.fail(rule, inst, f"the construction is selected / altered by a tolerance-based comparison {tol}: with the default absolute and relative tolerances the "
+                        f"outcome depends on the scale of the data (the documented construction is exact)\ncode: {show(arr_term(code), 300)}", fi.loc(), fi.qualname, key)
     if strict_idiom and not (set(hc) <= set(hs)):
         return ctx.unknown(rule, inst, f"construction not recognised: it uses library calls outside the documented construction: {sorted(set(hc) - set(hs))} (documented {sorted(set(hs))})\ncode: {show(arr_term(code), 300)}",
                            fi.loc(), fi.qualname, key)
